@@ -174,6 +174,53 @@ Theorem C08_hq_seen_after_record :
 Proof. exact hq_seen_after_record_lemma. Qed.
 Print Assumptions C08_hq_seen_after_record.
 
+(* The request of one pass put to the HQ in several batches (--hq-batch-size), for EVERY partition
+   of the request and every reply to every batch: [ex] lists the exchanges (batch, reply) in order.
+   A node is marked Seen only if every batch was answered and no answer returned the node's text;
+   in particular the batch its text travelled in was answered without it. *)
+Theorem C08_hq_batched_seen_only_if_reported :
+  forall (ex : list hq_exchange) (t : item) (i : nat) (n n' : item) (ty : kind),
+  concat (map fst ex) = hq_sent t ->
+  nth_error (work_nodes (max_depth t) None t) i = Some (n, ty) ->
+  nth_error (nodes_at (max_depth t) (snd (hq_seencheck_ex ex t))) i = Some n' ->
+  n' = n
+  \/ (n' = mark_seen n
+      /\ (forall b r, In (b, r) ex -> exists a, r = HROk a /\ ~ In (url_of n) a)
+      /\ (is_fresh n = true ->
+          exists b a, In (b, HROk a) ex /\ In (url_of n, ty) b /\ ~ In (url_of n) a)).
+Proof. exact hq_batched_seen_only_if_reported_lemma. Qed.
+Print Assumptions C08_hq_batched_seen_only_if_reported.
+
+(* ... and it is marked whenever every batch was answered and none returned its text. *)
+Theorem C08_hq_batched_seen_if_reported :
+  forall (ex : list hq_exchange) (t : item) (i : nat) (n : item) (ty : kind),
+  max_depth t <> 0 -> hq_sent t <> [] ->
+  (forall b r, In (b, r) ex -> exists a, r = HROk a /\ ~ In (url_of n) a) ->
+  nth_error (work_nodes (max_depth t) None t) i = Some (n, ty) ->
+  nth_error (nodes_at (max_depth t) (snd (hq_seencheck_ex ex t))) i = Some (mark_seen n).
+Proof. exact hq_batched_seen_if_reported_lemma. Qed.
+Print Assumptions C08_hq_batched_seen_if_reported.
+
+(* Against the reference HQ the outcome of a pass (statuses and the set the HQ holds afterwards) does
+   not depend on the batching: for every way [split] of cutting a request into consecutive batches
+   the answers of the batches, one after the other, are the answer to the whole request.  So
+   C08_hq_seen_after_record holds for every batching as well. *)
+Theorem C08_hq_batching_irrelevant :
+  forall (split : list (N * kind) -> list (list (N * kind))),
+  (forall l, concat (split l) = l) ->
+  forall (S : list N) (t : item), hq_step_parts split S t = hq_step S t.
+Proof. exact hq_batching_irrelevant_lemma. Qed.
+Print Assumptions C08_hq_batching_irrelevant.
+
+(* Batches of b >= 1 entries (the last one shorter) are such a partition: every batch size gives
+   what the single request gives. *)
+Theorem C08_hq_batch_size_irrelevant :
+  forall (b : nat), b <> 0 ->
+  (forall l : list (N * kind), concat (chunks b l) = l /\ Forall (fun p => p <> [] /\ length p <= b) (chunks b l))
+  /\ forall (S : list N) (t : item), hq_step_parts (chunks b) S t = hq_step S t.
+Proof. exact hq_batch_size_irrelevant_lemma. Qed.
+Print Assumptions C08_hq_batch_size_irrelevant.
+
 (* The hypotheses are met by a concrete history with duplicates, promotion and a re-opened store. *)
 Theorem C08_nonvacuous :
   Inv0 Tree.Witness.big_tree
